@@ -20,6 +20,12 @@ pub struct UniformNet {
     pub dup_permille: u32,
     pub hold_permille: u32,
     pub hold_max_ms: u64,
+    /// On-path mutation (single bit flip, truncation, extension) of unsecured (handshake) datagrams
+    pub mutate_unsecured_permille: u32,
+    /// ... and of secured datagrams
+    pub mutate_secured_permille: u32,
+    /// Replace a datagram by a copy of an earlier one of the same sender (replay / substitution)
+    pub replay_permille: u32,
 }
 
 pub struct UniformAdversary {
@@ -27,6 +33,8 @@ pub struct UniformAdversary {
     pub fired: Rc<RefCell<BTreeMap<&'static str, u64>>>,
     /// When set, faults are switched off (settle phase)
     pub calm: Rc<Cell<bool>>,
+    /// Earlier datagrams per sender (for replays)
+    pub seen: Vec<(usize, Vec<u8>)>,
 }
 
 impl Policy for UniformAdversary {
@@ -40,6 +48,58 @@ impl Policy for UniformAdversary {
             };
         if self.calm.get() {
             return vec![Fate::deliver(lat)];
+        }
+        let secured = _rec.bytes.len() >= 4 && (_rec.bytes[1] != 0 || _rec.bytes[2] != 0 || _rec.bytes[3] & 1 != 0);
+        let p_mut = if secured { cfg.mutate_secured_permille } else { cfg.mutate_unsecured_permille };
+        if p_mut > 0 && !_rec.bytes.is_empty() && tape::chance(p_mut) {
+            let mut b = _rec.bytes.clone();
+            match tape::weighted(&[700, 100, 100, 100]) {
+                1 => {
+                    let n = tape::choose(b.len() as u32) as usize;
+                    b.truncate(n);
+                    *self.fired.borrow_mut().entry("mutate_truncate").or_default() += 1;
+                }
+                2 => {
+                    let n = 1 + tape::choose(16);
+                    for _ in 0..n {
+                        b.push(tape::choose(256) as u8);
+                    }
+                    *self.fired.borrow_mut().entry("mutate_extend").or_default() += 1;
+                }
+                3 => {
+                    let i = tape::choose(b.len() as u32) as usize;
+                    b[i] = tape::choose(256) as u8;
+                    *self.fired.borrow_mut().entry("mutate_byte").or_default() += 1;
+                }
+                _ => {
+                    let i = tape::choose(b.len() as u32) as usize;
+                    b[i] ^= 1 << tape::choose(8);
+                    *self.fired.borrow_mut().entry("mutate_bitflip").or_default() += 1;
+                }
+            }
+            return vec![Fate {
+                delay: lat,
+                bytes: Some(b),
+                redirect: None,
+                spoof_src: None,
+            }];
+        }
+        if cfg.replay_permille > 0 {
+            let candidates: Vec<usize> = self.seen.iter().enumerate().filter(|(_, (s, _))| *s == _rec.src).map(|(i, _)| i).collect();
+            let do_replay = !candidates.is_empty() && tape::chance(cfg.replay_permille);
+            if self.seen.len() < 256 {
+                self.seen.push((_rec.src, _rec.bytes.clone()));
+            }
+            if do_replay {
+                let i = candidates[tape::choose(candidates.len() as u32) as usize];
+                *self.fired.borrow_mut().entry("replay_substitute").or_default() += 1;
+                return vec![Fate {
+                    delay: lat,
+                    bytes: Some(self.seen[i].1.clone()),
+                    redirect: None,
+                    spoof_src: None,
+                }];
+            }
         }
         let benign = 1000u32.saturating_sub(cfg.drop_permille + cfg.dup_permille + cfg.hold_permille);
         let mut fire = |k: &'static str| *self.fired.borrow_mut().entry(k).or_default() += 1;
@@ -86,6 +146,10 @@ pub struct FullCfg {
     pub crashes: Vec<u64>,
     /// Restart a crashed device after this long
     pub restart_after_us: u64,
+    /// (time, node, task name, k): cancel (drop) the k-th task of that name at its current await point
+    pub cancels: Vec<(u64, usize, &'static str, usize)>,
+    /// From this global time on the network adversary is switched off (faults stop)
+    pub calm_at_us: Option<u64>,
 }
 
 #[derive(Clone, Debug)]
@@ -130,6 +194,7 @@ pub fn drive_full_with(seed: u64, cfg: FullCfg, step_hook: &mut dyn FnMut(u64, &
         cfg: cfg.net.clone(),
         fired: fired.clone(),
         calm: calm.clone(),
+        seen: Vec::new(),
     }));
     let log: FullLog = Rc::new(RefCell::new(Vec::new()));
     let events: Rc<RefCell<Vec<FullXEvent>>> = Rc::new(RefCell::new(Vec::new()));
@@ -215,6 +280,9 @@ pub fn drive_full_with(seed: u64, cfg: FullCfg, step_hook: &mut dyn FnMut(u64, &
     let mut crashes = cfg.crashes.clone();
     crashes.sort();
     crashes.reverse();
+    let mut cancels = cfg.cancels.clone();
+    cancels.sort();
+    cancels.reverse();
     let mut restart_at: Option<u64> = None;
     let mut dev_inc = 1u32;
     let mut stop;
@@ -227,7 +295,33 @@ pub fn drive_full_with(seed: u64, cfg: FullCfg, step_hook: &mut dyn FnMut(u64, &
         if let Some(t) = restart_at {
             step = step.min(t.saturating_sub(kernel::now()).max(1));
         }
+        if let Some((t, _, _, _)) = cancels.last() {
+            step = step.min(t.saturating_sub(kernel::now()).max(1));
+        }
+        if let Some(t) = cfg.calm_at_us {
+            if kernel::now() >= t {
+                calm.set(true);
+            } else {
+                step = step.min(t - kernel::now());
+            }
+        }
         stop = exec.run_for(step);
+        while matches!(cancels.last(), Some((t, _, _, _)) if *t <= kernel::now()) {
+            let (_, node, name, k) = cancels.pop().unwrap();
+            if exec.is_up(node) {
+                let idx: Vec<usize> = exec
+                    .task_names(node)
+                    .iter()
+                    .enumerate()
+                    .filter(|(_, n)| **n == name)
+                    .map(|(i, _)| i)
+                    .collect();
+                if !idx.is_empty() {
+                    exec.cancel_task(node, idx[k % idx.len()]);
+                    *fired.borrow_mut().entry("cancel_task").or_default() += 1;
+                }
+            }
+        }
         if matches!(stop, StopReason::MaxPolls) {
             break;
         }
